@@ -492,6 +492,25 @@ public:
       json::Object FO;
       FO["name"] = F->getNameAsString();
       D.putType(FO, F->getType());
+      if (const auto *AT = D.Ctx.getAsConstantArrayType(F->getType())) {
+        json::Object A;
+        A["size"] = (int64_t)AT->getSize().getZExtValue();
+        D.putType(A, AT->getElementType());
+        if (auto TSI = F->getTypeSourceInfo()) {
+          TypeLoc TL = TSI->getTypeLoc();
+          if (auto ATL = TL.getAs<ConstantArrayTypeLoc>()) {
+            if (Expr *SE = ATL.getSizeExpr()) {
+              SourceLocation B = SE->getBeginLoc();
+              if (B.isMacroID())
+                A["size_mac"] = Lexer::getImmediateMacroName(B, D.SM, D.Ctx.getLangOpts()).str();
+              CharSourceRange R = CharSourceRange::getTokenRange(D.SM.getExpansionRange(SE->getSourceRange()).getAsRange());
+              A["size_src"] = Lexer::getSourceText(R, D.SM, D.Ctx.getLangOpts()).str();
+            }
+          }
+        }
+        FO["arr"] = std::move(A);
+      }
+      D.putLoc(FO, F->getLocation());
       Fs.push_back(std::move(FO));
     }
     R["fields"] = std::move(Fs);
